@@ -29,6 +29,17 @@ import Glom.Model.C18Slice
 -/
 namespace Glom.C18
 
+/-- attribute names and the names in the text, as character lists
+    (`str.startswith('__')` and `arg[2:]` are list operations) -/
+abbrev Name := List Char
+
+def dunder : Name := ['_', '_']
+def starName : Name := ['_', '_', 's', 't', 'a', 'r', '_', '_']
+def starstarName : Name := ['_', '_', 's', 't', 'a', 'r', 's', 't', 'a', 'r', '_', '_']
+
+/-- `name.startswith('__')` -/
+def isDunder (n : Name) : Bool := dunder.isPrefixOf n
+
 /-! ### expressions -/
 
 mutual
@@ -42,7 +53,7 @@ mutual
     | slice (a b c : Option (Arg L))
   /-- one recorded operation `(op, arg)` -/
   inductive Step (L : Type) where
-    | attr (name : String)                                 -- ('.', name)
+    | attr (name : Name)                                   -- ('.', name)
     | item (i : Item L)                                    -- ('[', x)   x not a tuple
     | items (is : List (Item L))                           -- ('[', (x, …))   type(arg) is tuple
     | call (args : List (Arg L)) (kwargs : List (String × Arg L))   -- ('(', (args, kwargs))
@@ -67,9 +78,9 @@ def Obj.steps {L} : Obj L → List (Step L)
 inductive Tok (L : Type) where
   | root (r : String)            -- `T` / `S` / `A`
   | name (n : String)            -- another name (`Path`)
-  | dot (n : String)             -- `.n`
+  | dot (n : Name)               -- `.n`
   | lit (v : L)                  -- an atomic literal
-  | str (s : String)             -- the string literal inside `.__('…')`
+  | str (s : Name)               -- the string literal inside `.__('…')`
   | kw (k : String)              -- `k=`
   | comma
   | colon
@@ -120,23 +131,27 @@ def Step.isSeg {L} : Step L → Bool
   | .seg _ => true
   | _ => false
 
-/-- `_format_path(t_path)` on steps whose own tokens are already formatted:
-    plain segments are parts of their own, maximal runs of other steps become
-    T sub-expressions — printed with root `T` whatever the real root is -/
+/-- the `path_parts` of `_format_path`: every `'P'` step is a part of its own, every maximal
+    run of other steps (the `cur_t_path` accumulator) is one T sub-expression -/
+def groupSteps {α} (isSeg : α → Bool) : List α → List (List α ⊕ α)
+  | [] => []
+  | x :: r =>
+    if isSeg x then .inr x :: groupSteps isSeg r
+    else match groupSteps isSeg r with
+      | .inl g :: rest => .inl (x :: g) :: rest
+      | rest => .inl [x] :: rest
+
+/-- `_format_path(t_path)` on steps whose own tokens are already formatted: a lone T run is
+    printed by `_format_t` (reading 6 of DESIGN.md), anything else as `Path(part, …)`;
+    the T sub-expressions are printed with root `T` whatever the real root is -/
 def assemblePath {L} (xs : List (Step L × List (Tok L))) : List (Tok L) :=
-  let rec go : List (Step L × List (Tok L)) → List (List (Tok L)) → List (Tok L) → Bool →
-      List (List (Tok L)) × List (Tok L) × Bool
-    | [], parts, cur, curNE => (parts, cur, curNE)
-    | (st, toks) :: r, parts, cur, curNE =>
-      if st.isSeg then
-        -- if cur_t_path: path_parts.append(cur_t_path); cur_t_path = []
-        let parts := if curNE then parts ++ [Tok.root "T" :: cur] else parts
-        go r (parts ++ [toks]) [] false
-      else go r parts (cur ++ toks) true
-  let (parts, cur, curNE) := go xs [] [] false
-  let parts := if !parts.isEmpty && curNE then parts ++ [Tok.root "T" :: cur] else parts
-  if !parts.isEmpty || !curNE then [Tok.name "Path", Tok.par (joinSep .comma parts)]
-  else Tok.root "T" :: cur
+  match groupSteps (fun x => x.1.isSeg) xs with
+  | [.inl g] => Tok.root "T" :: g.flatMap (fun x => x.2)
+  | groups =>
+    [Tok.name "Path", Tok.par (joinSep .comma (groups.map (fun grp =>
+      match grp with
+      | .inl g => Tok.root "T" :: g.flatMap (fun x => x.2)
+      | .inr x => x.2)))]
 
 /-- `_format_t(path, root)` on steps whose own tokens are already formatted:
     the first `'P'` op hands the whole path to `_format_path` -/
@@ -164,7 +179,7 @@ mutual
   /-- what one op contributes to `prepr` (for a `'P'` op: `repr(arg)`, used by `_format_path`) -/
   def fmtStep {L} (F : FmtFacts) : Step L → List (Tok L)
     | .attr name =>
-      if F.dunderGuard && name.startsWith "__" then [.dot "__", .par [.str (name.drop 2).toString]]
+      if F.dunderGuard && isDunder name then [.dot dunder, .par [.str (name.drop 2)]]
       else [.dot name]
     | .item i => [.br (fmtItem F i)]
     | .items is =>
@@ -176,8 +191,8 @@ mutual
       [.par (joinSep .comma ((args.map (fun a => fmtArg F a)) ++
           (sortKw (kwargs.map (fun p => (p.1, fmtArg F p.2)))).map (fun p => Tok.kw p.1 :: p.2)))]
     | .seg v => [.lit v]
-    | .star => [.dot "__star__", .par []]
-    | .starstar => [.dot "__starstar__", .par []]
+    | .star => [.dot starName, .par []]
+    | .starstar => [.dot starstarName, .par []]
   termination_by s => sizeOf s
   decreasing_by all_goals c18_dec
 end
@@ -243,86 +258,154 @@ def splitCallArgs {L} (ps : List (Option String × Arg L)) :
     if nodupStr (kws.map (fun p => p.1)) then some (pos.map (fun p => p.2), kws) else none
   else none     -- SyntaxError: positional argument follows keyword argument
 
+/-! termination of the parser: the pieces of a split are no bigger than the whole -/
+
+theorem splitOn_ne_nil {L} (p : Tok L → Bool) (toks : List (Tok L)) : splitOn p toks ≠ [] := by
+  induction toks with
+  | nil => simp [splitOn]
+  | cons t r ih =>
+    simp only [splitOn]
+    split
+    · simp
+    · split <;> simp
+
+theorem splitOn_sizeOf {L} (p : Tok L → Bool) (toks : List (Tok L)) :
+    ∀ piece ∈ splitOn p toks, sizeOf piece ≤ sizeOf toks := by
+  induction toks with
+  | nil => intro piece h; simp [splitOn] at h; subst h; simp
+  | cons t r ih =>
+    intro piece h
+    simp only [splitOn] at h
+    split at h
+    · simp only [List.mem_cons] at h
+      rcases h with h | h
+      · subst h; simp; omega
+      · have := ih piece h; simp; omega
+    · split at h
+      · rename_i hnil; exact absurd hnil (splitOn_ne_nil p r)
+      · rename_i s ss heq
+        simp only [List.mem_cons] at h
+        rcases h with h | h
+        · subst h
+          have := ih s (by rw [heq]; simp)
+          simp; omega
+        · have := ih piece (by rw [heq]; simp [h])
+          simp; omega
+
+theorem mem_dropTrailingEmpty {α} {pieces : List (List α)} {x : List α}
+    (h : x ∈ dropTrailingEmpty pieces) : x ∈ pieces := by
+  unfold dropTrailingEmpty at h
+  split at h
+  · exact List.dropLast_subset _ h
+  · exact h
+
+theorem piece_sizeOf {L} (p : Tok L → Bool) (toks : List (Tok L)) {x : List (Tok L)}
+    (h : x ∈ dropTrailingEmpty (splitOn p toks)) : sizeOf x ≤ sizeOf toks :=
+  splitOn_sizeOf p toks x (mem_dropTrailingEmpty h)
+
+/-- the text `()` -/
+def isUnitTok {L} : List (Tok L) → Bool
+  | [.par []] => true
+  | _ => false
+
+/-- `k=` at the head of a piece marks a keyword argument -/
+def stripKw {L} : List (Tok L) → Option String × List (Tok L)
+  | .kw k :: rest => (some k, rest)
+  | p => (none, p)
+
+theorem stripKw_sizeOf {L} (p : List (Tok L)) : sizeOf (stripKw p).2 ≤ sizeOf p := by
+  unfold stripKw
+  split
+  · simp
+  · simp
+
+macro "parse_dec" : tactic => `(tactic| (
+  simp_wf
+  all_goals first
+  | done
+  | omega
+  | (simp [Prod.lex_def] <;> omega)
+  | (have := piece_sizeOf _ _ ‹_ ∈ dropTrailingEmpty _›; have := stripKw_sizeOf ‹List (Tok _)›;
+     simp [Prod.lex_def] <;> omega)))
+
 mutual
   /-- an expression: a literal token, or a root followed by steps -/
-  def parseArgF {L} (fuel : Nat) : List (Tok L) → Option (Arg L)
+  def parseArg {L} : List (Tok L) → Option (Arg L)
     | [.lit v] => some (.lit v)
-    | .root r :: rest => (parseStepsF fuel rest).map (Arg.t r)
+    | .root r :: rest => (parseSteps rest).map (Arg.t r)
     | _ => none
-  termination_by toks => (fuel, 1, toks.length)
-  decreasing_by all_goals (simp_wf <;> first | omega | (simp [Prod.lex_def] <;> omega))
+  termination_by toks => (sizeOf toks, 1)
+  decreasing_by all_goals parse_dec
   /-- `a`, `a:b`, `a:b:c` with empty parts for `None` -/
-  def parseItemF {L} (fuel : Nat) (toks : List (Tok L)) : Option (Item L) :=
-    let opt (p : List (Tok L)) : Option (Option (Arg L)) :=
-      if p.isEmpty then some none else (parseArgF fuel p).map some
-    match splitOn Tok.isColon toks with
-    | [p] => (parseArgF fuel p).map Item.one
-    | [a, b] => match opt a, opt b with
+  def parseItem {L} (toks : List (Tok L)) : Option (Item L) :=
+    match h : splitOn Tok.isColon toks with
+    | [p] =>
+      have : sizeOf p ≤ sizeOf toks := splitOn_sizeOf _ _ p (by rw [h]; simp)
+      (parseArg p).map Item.one
+    | [a, b] =>
+      have ha : sizeOf a ≤ sizeOf toks := splitOn_sizeOf _ _ a (by rw [h]; simp)
+      have hb : sizeOf b ≤ sizeOf toks := splitOn_sizeOf _ _ b (by rw [h]; simp)
+      match (if a.isEmpty then some none else (parseArg a).map some),
+            (if b.isEmpty then some none else (parseArg b).map some) with
       | some a', some b' => some (.slice a' b' none)
       | _, _ => none
-    | [a, b, c] => match opt a, opt b, opt c with
+    | [a, b, c] =>
+      have ha : sizeOf a ≤ sizeOf toks := splitOn_sizeOf _ _ a (by rw [h]; simp)
+      have hb : sizeOf b ≤ sizeOf toks := splitOn_sizeOf _ _ b (by rw [h]; simp)
+      have hc : sizeOf c ≤ sizeOf toks := splitOn_sizeOf _ _ c (by rw [h]; simp)
+      match (if a.isEmpty then some none else (parseArg a).map some),
+            (if b.isEmpty then some none else (parseArg b).map some),
+            (if c.isEmpty then some none else (parseArg c).map some) with
       | some a', some b', some c' => some (.slice a' b' c')
       | _, _, _ => none
     | _ => none
-  termination_by (fuel, 2, toks.length)
-  decreasing_by all_goals (simp_wf <;> first | omega | (simp [Prod.lex_def] <;> omega))
+  termination_by (sizeOf toks, 2)
+  decreasing_by all_goals parse_dec
   /-- the inside of `[ … ]` -/
-  def parseIndexF {L} (fuel : Nat) (toks : List (Tok L)) : Option (Step L) :=
-    match toks with
-    | [.par []] => some (.items [])
-    | _ =>
-      match splitOn Tok.isComma toks with
-      | [p] => (parseItemF fuel p).map Step.item
-      | pieces => (allSome ((dropTrailingEmpty pieces).map (fun p => parseItemF fuel p))).map Step.items
-  termination_by (fuel, 3, toks.length)
-  decreasing_by all_goals (simp_wf <;> first | omega | (simp [Prod.lex_def] <;> omega))
+  def parseIndex {L} (toks : List (Tok L)) : Option (Step L) :=
+    if isUnitTok toks then some (.items [])
+    else
+      match h : splitOn Tok.isComma toks with
+      | [p] =>
+        have : sizeOf p ≤ sizeOf toks := splitOn_sizeOf _ _ p (by rw [h]; simp)
+        (parseItem p).map Step.item
+      | _ => (allSome ((dropTrailingEmpty (splitOn Tok.isComma toks)).attach.map
+          (fun ⟨p, _hp⟩ => parseItem p))).map Step.items
+  termination_by (sizeOf toks, 3)
+  decreasing_by all_goals parse_dec
   /-- the inside of `( … )` after an expression -/
-  def parseCallF {L} (fuel : Nat) (toks : List (Tok L)) : Option (Step L) :=
+  def parseCall {L} (toks : List (Tok L)) : Option (Step L) :=
     if toks.isEmpty then some (.call [] [])
     else
-      match allSome ((dropTrailingEmpty (splitOn Tok.isComma toks)).map (fun p =>
-          match p with
-          | .kw k :: rest => (parseArgF fuel rest).map (fun a => (some k, a))
-          | _ => (parseArgF fuel p).map (fun a => (none, a)))) with
+      match allSome ((dropTrailingEmpty (splitOn Tok.isComma toks)).attach.map (fun ⟨p, _hp⟩ =>
+          (parseArg (stripKw p).2).map (fun a => ((stripKw p).1, a)))) with
       | some ps => (splitCallArgs ps).map (fun ak => Step.call ak.1 ak.2)
       | none => none
-  termination_by (fuel, 3, toks.length)
-  decreasing_by all_goals (simp_wf <;> first | omega | (simp [Prod.lex_def] <;> omega))
+  termination_by (sizeOf toks, 3)
+  decreasing_by all_goals parse_dec
   /-- the operations applied to a root, each recorded by the TType overload it triggers -/
-  def parseStepsF {L} (fuel : Nat) : List (Tok L) → Option (List (Step L))
+  def parseSteps {L} : List (Tok L) → Option (List (Step L))
     | [] => some []
-    | .dot "__" :: .par [.str s] :: r => (parseStepsF fuel r).map (Step.attr ("__" ++ s) :: ·)
-    | .dot "__star__" :: .par [] :: r => (parseStepsF fuel r).map (Step.star :: ·)
-    | .dot "__starstar__" :: .par [] :: r => (parseStepsF fuel r).map (Step.starstar :: ·)
+    | .dot ['_', '_'] :: .par [.str s] :: r =>                       -- T.__('name')
+      (parseSteps r).map (Step.attr (dunder ++ s) :: ·)
+    | .dot ['_', '_', 's', 't', 'a', 'r', '_', '_'] :: .par [] :: r => (parseSteps r).map (Step.star :: ·)
+    | .dot ['_', '_', 's', 't', 'a', 'r', 's', 't', 'a', 'r', '_', '_'] :: .par [] :: r =>
+      (parseSteps r).map (Step.starstar :: ·)
     | .dot n :: r =>
-      if n.startsWith "__" then none      -- TType.__getattr__: 'T instances reserve dunder attributes'
-      else (parseStepsF fuel r).map (Step.attr n :: ·)
+      if isDunder n then none      -- TType.__getattr__: 'T instances reserve dunder attributes'
+      else (parseSteps r).map (Step.attr n :: ·)
     | .br ch :: r =>
-      match fuel with
-      | 0 => none
-      | f + 1 => match parseIndexF f ch, parseStepsF (f + 1) r with
-        | some st, some rest => some (st :: rest)
-        | _, _ => none
+      match parseIndex ch, parseSteps r with
+      | some st, some rest => some (st :: rest)
+      | _, _ => none
     | .par ch :: r =>
-      match fuel with
-      | 0 => none
-      | f + 1 => match parseCallF f ch, parseStepsF (f + 1) r with
-        | some st, some rest => some (st :: rest)
-        | _, _ => none
+      match parseCall ch, parseSteps r with
+      | some st, some rest => some (st :: rest)
+      | _, _ => none
     | _ => none
-  termination_by toks => (fuel, 0, toks.length)
-  decreasing_by all_goals (simp_wf <;> first | omega | (simp [Prod.lex_def] <;> omega))
+  termination_by toks => (sizeOf toks, 0)
+  decreasing_by all_goals parse_dec
 end
-
-/-- nesting depth of brackets -/
-def tokDepth {L} : Tok L → Nat
-  | .br ch => 1 + (ch.map tokDepth).foldl max 0
-  | .par ch => 1 + (ch.map tokDepth).foldl max 0
-  | _ => 0
-termination_by t => sizeOf t
-decreasing_by all_goals c18_dec
-
-def toksDepth {L} (toks : List (Tok L)) : Nat := (toks.map tokDepth).foldl max 0
 
 /-! ### `Path.__init__` -/
 
@@ -354,23 +437,20 @@ def pathInit {L} (parts : List (Part L)) : Option (String × List (Step L)) :=
         if r != "T" then none             -- 'path segment must be path from T'
         else (s.foldlM (fun steps st => tChild acc.1 steps st) acc.2).map (fun s' => (acc.1, s'))) start
 
-/-- the whole text: a T expression, or `Path( … )` -/
-def parseObjF {L} (fuel : Nat) : List (Tok L) → Option (Obj L)
-  | .root r :: rest => (parseStepsF fuel rest).map (Obj.tobj r)
+/-- the whole text — `eval(repr)`: a T expression, or `Path( … )` -/
+def parseObj {L} : List (Tok L) → Option (Obj L)
+  | .root r :: rest => (parseSteps rest).map (Obj.tobj r)
   | [.name "Path", .par ch] =>
     if ch.isEmpty then some (.pobj "T" [])
     else
       match allSome ((dropTrailingEmpty (splitOn Tok.isComma ch)).map (fun p =>
           match p with
           | [.lit v] => some (Part.plain v)
-          | .root r :: rest => (parseStepsF fuel rest).map (Part.texpr r)
+          | .root r :: rest => (parseSteps rest).map (Part.texpr r)
           | _ => none)) with
       | some parts => (pathInit parts).map (fun rs => Obj.pobj rs.1 rs.2)
       | none => none
   | _ => none
-
-/-- `eval(repr)`: enough fuel for the nesting depth of the text -/
-def parseObj {L} (toks : List (Tok L)) : Option (Obj L) := parseObjF (toksDepth toks + 1) toks
 
 /-! ### pickling -/
 
@@ -440,5 +520,80 @@ def pFromT {α} (ops : List (Cell α)) : List (Cell α) :=
   match ops with
   | .root "S" :: r => .root "T" :: r
   | _ => ops
+
+/-- `Path(p, q)` for two Path objects given by their ops: `Path.__init__` with `path_t = T`,
+    every step of each part appended by `_t_child`; `none` is the ValueError
+    ('path segment must be path from T') -/
+def concatFlat {α} [DecidableEq α] (p q : List (Cell α)) : Option (List (Cell α)) :=
+  if p.take 1 = [.root "T"] ∧ q.take 1 = [.root "T"] then some (.root "T" :: (p.drop 1 ++ q.drop 1))
+  else none
+
+/-- read a flat ops tuple back as (root, steps) -/
+def unflat {α} : List (Cell α) → Option (String × List (String × α))
+  | .root r :: rest =>
+    let rec go : List (Cell α) → Option (List (String × α))
+      | [] => some []
+      | .op c :: .arg a :: r => (go r).map ((c, a) :: ·)
+      | _ => none
+    (go rest).map (fun st => (r, st))
+  | _ => none
+
+/-- a sequence operation on a Path given by its steps -/
+inductive SeqOp (α : Type) where
+  | len
+  | idx (i : Int)
+  | slice (a b c : Option Int)
+  | values
+  | items
+  | eq (oroot : String) (other : List (String × α))
+  | startswith (oroot : String) (other : List (String × α))
+  | concat (other : List (String × α))       -- Path(p, q), both rooted at T
+  | fromT
+
+inductive SeqRes (α : Type) where
+  | nat (n : Nat)
+  | path (root : String) (steps : List (String × α))
+  | vals (xs : List α)
+  | pairs (xs : List (String × α))
+  | bool (b : Bool)
+  | indexError
+  | valueError
+  | other (what : String)
+  deriving DecidableEq, Repr
+
+
+def resOfOps {α} (o : Option (List (Cell α))) (err : SeqRes α) : SeqRes α :=
+  match o with
+  | none => err
+  | some ops => match unflat ops with
+    | some (r, st) => .path r st
+    | none => .other "malformed ops"
+
+def argsOf {α} (cells : List (Cell α)) : Option (List α) :=
+  cells.foldr (fun c acc => match c, acc with
+    | .arg a, some l => some (a :: l)
+    | _, _ => none) (some [])
+
+def pairsOf {α} (cells : List (Cell α × Cell α)) : Option (List (String × α)) :=
+  cells.foldr (fun c acc => match c, acc with
+    | (.op o, .arg a), some l => some ((o, a) :: l)
+    | _, _ => none) (some [])
+
+/-- the sequence operations of `Path`, run on the flat ops tuple of the path -/
+def seqModel {α} [DecidableEq α] (root : String) (steps : List (String × α)) :
+    SeqOp α → SeqRes α
+  | .len => .nat (pLen (flatOf root steps))
+  | .idx i => resOfOps (pGetIdx (flatOf root steps) i) .indexError
+  | .slice a b c => resOfOps (pGetSlice (flatOf root steps) a b c) .valueError
+  | .values => match argsOf (pValues (flatOf root steps)) with
+    | some l => .vals l
+    | none => .other "malformed values"
+  | .items => match pairsOf (pItems (flatOf root steps)) with
+    | some l => .pairs l
+    | none => .other "malformed items"
+  | .eq oroot other => .bool (pEq (flatOf root steps) (flatOf oroot other))
+  | .startswith oroot other => .bool (pStartswith (flatOf root steps) (flatOf oroot other))
+  | .concat other => resOfOps (concatFlat (flatOf root steps) (flatOf "T" other)) .valueError
+  | .fromT => resOfOps (some (pFromT (flatOf root steps))) .valueError
 
 end Glom.C18
